@@ -104,6 +104,14 @@ CLAIMED = {
             "Generated-input search; -i hint on each def row with the model's tag, --define record naming the def row, --hover line naming Class.method for each call row. Exploration.",
             "Visibility inside `class << self` bodies is not varied (only bare sections of the class body).",
             "DESIGN.md §4 C22"),
+    "C23": ("property-based testing (Hypothesis + exhaustive enumeration of receivers x cursor forms) against a set model of callable methods read independently from the shipped configuration and a fixed user hierarchy",
+            "For every receiver/cursor form: MUST (own and inherited methods; class methods for class receivers) must be listed, MUST_NOT (methods only unrelated classes define, foreign private methods, wrong-side methods) must not; Object/Kernel membership asserted separately. Exploration.",
+            "Five listed findings (dot at EOF, Object/Kernel omission, class methods on K.new instances, Range literal, directly written literal receivers) are matched by shape; the remaining receivers are asserted in full.",
+            "DESIGN.md §4 C23"),
+    "C24": ("property-based testing (Hypothesis: generated programs with call sites of eleven known shapes in method bodies and at top level) against the generator's own call-site model",
+            "For every called method, --llm-nav --target=<name> must list exactly the model's multiset of (row, enclosing method, class), the matching total, and only callees written in the body. Exploration.",
+            "Known finding: implicit-receiver calls between instance methods of a class are not recorded.",
+            "DESIGN.md §4 C24"),
 }
 
 PENDING_REASON = "check not built yet in this round (planned in DESIGN.md §3.11); no claim is made"
